@@ -6,6 +6,8 @@ import PhyVerif.Lemmas.C08
 import PhyVerif.Model.C13c
 import PhyVerif.Spec.C13c
 import PhyVerif.Lemmas.C13c
+import PhyVerif.Model.C13d
+import PhyVerif.Lemmas.C13d
 /-!
 # C13 — ALF export writes consistent object tables that load back to the same spikes
 Only property theorems + non-vacuity examples; proofs in `Lemmas/C13.lean`.
@@ -224,6 +226,69 @@ theorem export_ids (cfg : Cfg) (v : View) (gen : Nat → String) (src : FDir) (h
       e'.rows = e.rows :=
   Lemmas.export_ids cfg v gen src h attr srcName hattr e he hrows
 
+/-- THE VIEW OF A SOURCE GIVEN IN SAMPLES HAS ITS TIMES IN SECONDS, AND THESE ARE WHAT IS EXPORTED.  The view the
+loader builds from `spike_times.npy` (`viewOfFile rate (.inSamples s) rest`: samples and times both come out of
+`_load_spike_samples`) has `samples = s` and `times = timesOf rate s = s / rate`; the conversion of that view leaves
+exactly these in `spikes.samples[.label].npy` and `spikes.times[.label].npy`, and every exported time multiplied by the
+sampling rate is the exported sample (`rate ≠ 0`, see `times_in_seconds`). -/
+theorem source_in_samples_exports_seconds (cfg : Cfg) (rate : Rat) (s : List Int) (rest : View) (gen : Nat → String)
+    (fs : FS) (h : Convertible cfg fs) (hr : rate ≠ 0) :
+    (viewOfFile rate (.inSamples s) rest).samples = s ∧
+    (viewOfFile rate (.inSamples s) rest).times = timesOf rate s ∧
+    (convertFS cfg (viewOfFile rate (.inSamples s) rest) gen fs).fs.out.lookup
+        (labelled' cfg.label ["spikes", "times", "npy"]) = some (fresh ((timesOf rate s).map Row.q)) ∧
+    (convertFS cfg (viewOfFile rate (.inSamples s) rest) gen fs).fs.out.lookup
+        (labelled' cfg.label ["spikes", "samples", "npy"]) = some (fresh (s.map Row.z)) ∧
+    ∀ (i : Nat) (_ : i < s.length), (timesOf rate s).getD i 0 * rate = (s.getD i 0 : Int) :=
+  Lemmas.source_in_samples_exports_seconds cfg rate s rest gen fs h hr
+
+/-- … and for a source given in SECONDS the exported times are the file's values verbatim (not recomputed). -/
+theorem source_in_seconds_exports_verbatim (cfg : Cfg) (rate : Rat) (t : List Rat) (s : Option (List Int)) (rest : View)
+    (gen : Nat → String) (fs : FS) (h : Convertible cfg fs) :
+    (convertFS cfg (viewOfFile rate (.inSeconds t s) rest) gen fs).fs.out.lookup
+        (labelled' cfg.label ["spikes", "times", "npy"]) = some (fresh (t.map Row.q)) :=
+  Lemmas.source_in_seconds_exports_verbatim cfg rate t s rest gen fs h
+
+/-- LOADING THE OUTPUT DIRECTORY OF THE CONVERSION.  `project I out` is the WHOLE output directory of `convertFS` as the
+loader model of C04 sees it (every file kept: names joined by dots, rows turned into shaped arrays; `I` says what the
+rows of quantities owned by C09/C14 hold and how a time in seconds is written as a cell).  For every convertible source
+directory (`Convertible`, conversion into an empty target), label, configuration, identifier generator and view that
+satisfies what the loader asserts (`ViewOK`, non-decreasing spike times — as cells: `hmono`), with at least two spikes (a
+first dimension of 1 is squeezed away by the loader), whose `spike_clusters.npy` / `spike_templates.npy` hold the view's
+ids (they are what the view was loaded from) below 65536 (the quantifier's bound), C04's `load` on the projected output
+SUCCEEDS and shows: the view's spike times (seconds, verbatim), samples, spike clusters and spike templates; as channel
+positions the source's `channel_positions.npy` (read exactly as the loader reads it in the source: `atleast 2 ∘ squeeze ∘
+scrub`); as amplitudes, channel map, templates and template channels the arrays the conversion computed
+(`spikes.amps`, `channels.rawInd`, `templates.waveforms`, `templates.waveformsChannels`; their VALUES are C09/C14's:
+`rawInd` is the source's channel map for a single probe by `C14.rawInd_inverts_merge`).  None of the other files of the
+output (up to 22: `clusters.*`, `spikes.depths`, `templates.amps`, `channels.probes/labels`, `params.py`,
+`_kilosort_whitening.matrix.npy`, `_phy_spikes_subset.*`, `drift*`, `cluster_KSLabel.tsv`) is picked up by any of these
+searches, for ANY label (`Lemmas.noOther_spec`: the literal prefix of every loader pattern departs from the stem of every
+other possible output name; `Lemmas.S_inj`: the names on disk are pairwise different). -/
+theorem convert_output_loads (inv : C04.Arr → C04.Arr) (I : Interp) (cfg : Cfg) (v : View) (gen : Nat → String) (src : FDir)
+    (h : Convertible cfg ⟨src, []⟩) (hv : ViewOK v) (h2 : 2 ≤ v.samples.length)
+    (hmono : C04.monotone ((v.times.map I.encQ).map C04.Cell.num) = true)
+    (esc est epos : Entry)
+    (hsc : src.lookup ["spike_clusters", "npy"] = some esc)
+    (hscr : esc.rows = (v.spikeClusters.map Int.ofNat).map Row.z)
+    (hst : src.lookup ["spike_templates", "npy"] = some est)
+    (hstr : est.rows = (v.spikeTemplates.map Int.ofNat).map Row.z)
+    (hpos : src.lookup ["channel_positions", "npy"] = some epos)
+    (hidc : ∀ c ∈ v.spikeClusters, c < 65536) (hidt : ∀ c ∈ v.spikeTemplates, c < 65536) :
+    ∃ lv d', C04.load inv (project I (convertFS cfg v gen ⟨src, []⟩).fs.out) = .ok (lv, d') ∧
+      lv.times = .stored (vec (v.times.map I.encQ)) ∧
+      lv.samples = .file (vec v.samples) ∧
+      lv.spikeClusters = vec (v.spikeClusters.map Int.ofNat) ∧
+      lv.spikeTemplates = vec (v.spikeTemplates.map Int.ofNat) ∧
+      lv.amplitudes = some (C04.squeeze (C04.scrub (arrOf I (fresh (spikeAmps v))))) ∧
+      lv.channelMap = C04.atleast 1 (C04.squeeze (C04.scrub (arrOf I (fresh (tokRows "rawInd" v.channelProbes.length))))) ∧
+      lv.channelPositions = C04.atleast 2 (C04.squeeze (C04.scrub (arrOf I epos))) ∧
+      lv.templates = some (C04.zeroNanTemplates (C04.atleast 3 (C04.squeeze
+        (arrOf I (fresh (tokRows "templates.waveforms" v.nTemplates)))))) ∧
+      lv.templateCols = some (C04.squeeze (C04.scrub
+        (arrOf I (fresh (tokRows "templates.waveformsChannels" v.nTemplates))))) :=
+  Lemmas.convert_output_loads inv I cfg v gen src h hv h2 hmono esc est epos hsc hscr hst hstr hpos hidc hidt
+
 /-! Non-vacuity: a curated 3-spike source with a temporary file and raw data, label `p0`. -/
 def exView : View :=
   { rate := 30000, samples := [0, 15000, 45000], times := [0, 1/2, 3/2], spikeClusters := [0, 2, 2], spikeTemplates := [0, 1, 1],
@@ -279,5 +344,17 @@ example : timesOf 30000 [0, 15000, 45000] = [0, 1/2, 3/2] := by decide +kernel
 example : loadSpikeSamples 4 (.inSeconds [1/16, 3/8, 5/8, 7/8] none) = ([0, 2, 2, 4], [1/16, 3/8, 5/8, 7/8]) := by
   decide +kernel
 example : uuidOKb 2 ["uuids", "a", "b"] = true ∧ uuidOKb 2 ["uuids", "a", "a"] = false := by decide
+/-- times are written as cells in half seconds; positions have two columns -/
+def exI : Interp :=
+  { encQ := fun q => (q * 2).floor, cells := fun w i => if w = "pos" then [.num (10 * i), .num (10 * i + 1)] else [.num i],
+    trail := fun w => if w = "pos" then [2] else [] }
+example : (viewOfFile 30000 (.inSamples [0, 15000, 45000]) exView).times = exView.times := by decide +kernel
+example : C04.monotone ((exView.times.map exI.encQ).map C04.Cell.num) = true := by decide +kernel
+-- the whole 22-file output directory, loaded: the loader finds the labelled files among all the others
+example : (project exI (convertFS exCfg exView exGen ⟨exSrc, []⟩).fs.out).length = 22 := by decide +kernel
+example : (match C04.load id (project exI (convertFS exCfg exView exGen ⟨exSrc, []⟩).fs.out) with
+    | .ok (lv, _) => lv.times == .stored (vec [0, 1, 3]) && lv.samples == .file (vec [0, 15000, 45000]) &&
+        lv.spikeClusters == vec [0, 2, 2] && lv.channelPositions == ⟨[2, 2], [.num 0, .num 1, .num 10, .num 11]⟩
+    | .error _ => false) = true := by decide +kernel
 
 end PhyVerif.C13
